@@ -643,7 +643,7 @@ func ruleR20(c *Ctx) {
 			}
 		}
 	}
-	c.r.floor("R20", 6+8, "assembly/Go sibling checks", "C10")
+	c.r.floor("R20", 8, "assembly/Go sibling checks", "C10")
 }
 
 // evalBuildExpr evaluates a //go:build expression over {amd64, arm64, other}.
